@@ -34,8 +34,11 @@ def meaning_node(n) -> Dict[str, Any]:
         out["parameters"] = params
     sw = n["sweep"]
     if sw["on"]:
+        variables = {"t": {"values": [int(x) if sw.get("ints") else float(x) for x in sw["vals"]]}}
+        if sw.get("ctx2"):
+            variables.update({"u": {"from_context": "ku"}, "w": {"from_context": "kw"}})
         out["derive"] = {"parameter_sweep": {"parameters": {"value": expr_text(sw["expr"])},
-                                             "variables": {"t": {"values": [float(x) for x in sw["vals"]]}},
+                                             "variables": variables,
                                              "mode": sw["mode"], "broadcast": bool(sw["bc"]), "collection": sw["coll"]}}
     return out
 
@@ -65,10 +68,16 @@ def render(cfg: List[Dict[str, Any]]) -> str:
                         body.append(f"        {en['k']}: {scalar(en['v'], en['sp'])}")
         sw = n["sweep"]
         if sw["on"]:
-            vals = ", ".join(f"{float(x):.1f}" for x in sw["vals"])
+            vals = ", ".join((str(int(x)) if sw.get("ints") else f"{float(x):.1f}") for x in sw["vals"])
+            vtxt = f"t: {{values: [{vals}]}}"
+            if sw.get("ctx2"):
+                extra = ["u: {from_context: ku}", "w: {from_context: kw}"]
+                if sw.get("vorder"):
+                    extra.reverse()
+                vtxt = ", ".join(([extra[0], vtxt, extra[1]]) if sw.get("vorder") else ([vtxt] + extra))
             body += ["      derive:", "        parameter_sweep:",
                      f"          parameters: {{value: \"{expr_text(sw['expr'])}\"}}",
-                     f"          variables: {{t: {{values: [{vals}]}}}}",
+                     f"          variables: {{{vtxt}}}",
                      f"          mode: {sw['mode']}", f"          broadcast: {'true' if sw['bc'] else 'false'}",
                      f"          collection: {sw['coll']}"]
         # the position of `processor` among the node's keys is also free
